@@ -87,7 +87,8 @@ def col_index(letters):
 def range_members(rng_addr):
     """'Sheet!A1:B2' -> row-major list of rows of addresses (own
     implementation, independent of the library's resolve_ranges)."""
-    sheet, a = rng_addr.replace('$', '').rsplit('!', 1)
+    sheet, a = rng_addr.rsplit('!', 1)
+    a = a.replace('$', '')          # (a '$' may be part of the sheet name)
     p1, _, p2 = a.partition(':')
     p2 = p2 or p1
 
@@ -438,7 +439,7 @@ def gen_world(rng, n_inputs=None, n_formulas=None, sheets=None, names=True,
                         relative = False
                     else:
                         coords.append(sub[key])
-                if '$' in sub[key]:
+                if '$' in sub[key].split('!')[-1]:
                     # the library does not resolve $A$1 to A1 (it reads as
                     # blank), so this is not a dependency in its semantics;
                     # kept apart so that acyclicity still holds if it did
